@@ -1230,7 +1230,10 @@ func (c *Client) RemoteUpdate(
 	}
 
 	// execute or fallback
-	c.clockUpdate(update, false)
+	if !c.clockUpdate(update, false) {
+		// full sync, outside the rpc read loop
+		go c.Sync()
+	}
 
 	return nil
 }
